@@ -220,6 +220,17 @@ class PeersDriver(ClientDriver):
             self.models.append(mp)
             self.by_host[host] = mp
             self.register(mp)
+        # the server's own reported identities answer like a good server (the server reaching itself from outside)
+        self.own_models = []
+        rep = (w.k.get('extra_env') or {}).get('REPORT_SERVICES') or ''
+        for j, svc in enumerate([x for x in rep.split(',') if x]):
+            host = svc.split('://')[1].rsplit(':', 1)[0]
+            ip = None if host.endswith('.onion') else f'45.33.{32 + j}.156'
+            mp = ModelPeer(self, 900 + j, host, ip, 'good')
+            self.own_models.append(mp)
+            self.by_own_host = getattr(self, 'by_own_host', {})
+            self.by_own_host[host] = mp
+            self.register(mp)
         for mp in self.models:
             mp.gossip = rng.sample(self.models, min(len(self.models), rng.randint(0, 5)))
         seeds = rng.sample(self.models, min(len(self.models), op.get('seeds', 3)))
@@ -264,6 +275,17 @@ class PeersDriver(ClientDriver):
             mp = good[op['i'] % len(good)]
             mp.kind = op['kind']
             self.probe('c19.peer_turned_bad')
+        self._when(op, go)
+
+    def op_self_down(self, op):
+        """The server can no longer be reached under its own reported identities."""
+        def go():
+            for mp in self.own_models:
+                if op.get('how', 'down') == 'down':
+                    mp.up = False
+                else:
+                    mp.kind = op['how']     # it answers, but wrongly: verification fails, it is marked bad and forgotten
+            self.probe('c19.self_' + op.get('how', 'down'))
         self._when(op, go)
 
     def op_dns_move(self, op):
@@ -324,6 +346,8 @@ class PeersDriver(ClientDriver):
             # gaps: mostly minutes to an hour, sometimes only seconds (two lists on either side of one state change)
             gap = w.sim.ch.delay(200.0, 3000.0) if not op.get('dense') or w.sim.ch.chance(0.5) else \
                 w.sim.ch.delay(1.0, 280.0)
+            if op.get('sparse'):
+                gap = w.sim.ch.delay(3600.0, 30000.0)       # days pass: a list every few hours
             w.run(None, min(end - w.sim.now, gap))
             if w.server is None:
                 break
@@ -502,6 +526,12 @@ class PeersFamily(SubsFamily):
                 else:
                     plan.append(dict(op='mine', n=1, ntx=[1], at=at, seed=rng.getrandbits(32)))
             plan.append(dict(op='hours', h=rng.choice([0.5, 1.5, 2.0, 3.5]), dense=rng.random() < 0.5))
+        if k['extra_env'].get('REPORT_SERVICES') and rng.random() < 0.35:
+            # motif: the server's own identities stop being reachable, or start failing verification (marked bad and
+            # forgotten at once), and half a day passes
+            plan.append(dict(op='self_down', at=round(rng.uniform(0, 3000), 1),
+                             how=rng.choice(['down', 'wrong_height', 'wrong_genesis', 'not_listed', 'rpc_error'])))
+            plan.append(dict(op='hours', h=rng.choice([5.0, 8.0, 12.0])))
         return dict(family='peers', knobs=k, plan=plan,
                     population=dict(n=npeers, crowd=crowd, big=big, v6crowd=(not crowd and not big and rng.random() < 0.25),
                                     seed=rng.getrandbits(32), seeds=rng.randint(1, 4),
